@@ -413,8 +413,11 @@ func genQueryCase(t *rapid.T, modes []string) queryCase {
 	case "escape":
 		// an invalid escape sequence inside a plain string literal
 		at := bounds[biasedIndex(t, "bound", len(bounds))]
-		esc := rapid.SampledFrom([]string{`\q`, `\x`, `\u12`, `\uZZZZ`, `\ `, `\é`}).Draw(t, "esc")
-		c.Src = src[:at] + ` "ab` + esc + `cd" ` + src[at:]
+		esc := rapid.SampledFrom([][2]string{{`\q`, `\q`}, {`\x41`, `\x`}, {`\u12ZZ`, `\u12`}, {`\uZZZZ`, `\u`}, {`\ `, `\ `}, {`\é`, ""}, {`\'`, `\'`}}).Draw(t, "esc")
+		c.Src = src[:at] + ` "ab` + esc[0] + `cd" ` + src[at:]
+		if esc[1] != "" { // the lexer reports the escape before the parser sees the string
+			c.ExpStart, c.ExpToken = at+4, esc[1]
+		}
 	default: // an interpolated string where a plain string or no string may stand
 		at := bounds[biasedIndex(t, "bound", len(bounds))]
 		if rapid.Bool().Draw(t, "import") {
